@@ -138,6 +138,10 @@ class SimRawStdout(io.RawIOBase):
     def isatty(self):
         return self.tty
 
+    def fileno(self):
+        # the simulated fd 1; os.write(1, ...) is routed here as well
+        return 1
+
     def write(self, b):
         self.calls += 1
         data = bytes(b)
@@ -523,7 +527,9 @@ class Sim:
         if plan["env"].get("stdout_mode", "block") == "unbuffered":
             # CPython's unbuffered text layer ignores short raw writes (data loss below the tool);
             # that is the interpreter's behaviour, not the tool's, so it is never injected there.
-            self.faults = [f for f in self.faults if not (f["op"] == "write" and f["kind"] == "short")]
+            # The same goes for EAGAIN (a non-blocking fd 1): the raw layer returns None, the
+            # unbuffered text layer ignores it, the data is gone and nobody is told.
+            self.faults = [f for f in self.faults if not (f["op"] == "write" and f["kind"] in ("short", "EAGAIN"))]
         self.write_faults = [f for f in self.faults if f["op"] == "write"]
         self.step_faults = [f for f in self.faults if f["op"] in ("interrupt", "memerror")]
         self.next_step_fault = None
@@ -1006,6 +1012,8 @@ class Sim:
             "os_write": os.write,
             "which": shutil.which,
             "getpid": os.getpid,
+            "isatty": os.isatty,
+            "fsync": os.fsync,
         }
         self.real_listdir = os.listdir
         self.real_scandir = os.scandir
@@ -1119,6 +1127,8 @@ class Sim:
 
             shutil.which = sim_which
             os.getpid = lambda: 4242  # process identity is not something a result may depend on
+            os.isatty = lambda fd: (mode == "line") if fd == 1 else saved["isatty"](fd)
+            os.fsync = lambda fd: None if fd == 1 else saved["fsync"](fd)
             sys.settrace(self.tracer)
             try:
                 runpy.run_path(self.tool_filename, run_name="__main__")
@@ -1166,6 +1176,8 @@ class Sim:
             os.write = saved["os_write"]
             shutil.which = saved["which"]
             os.getpid = saved["getpid"]
+            os.isatty = saved["isatty"]
+            os.fsync = saved["fsync"]
             _datetime_mod.date = saved["date"]
             _datetime_mod.datetime = saved["datetime"]
             _subprocess_mod.Popen = saved["Popen"]
